@@ -426,3 +426,9 @@ func init() {
 	mutant("roundtrip-retries-everything", "retry-predicate", "client.go", "		if err == nil || !retryable(err) {", "		if err == nil && !retryable(err) {")
 	mutant("roundtrip-flags-retry-on-processed", "retry-predicate", "client.go", "		if err == nil || !retryable(err) {\n			return false, err", "		if err == nil || !retryable(err) {\n			return err != nil, err")
 }
+
+func init() {
+	mutant("huff-subtable-created-when-present", "huffman-tree-build", "huffman.go", "		if node.sub[i] == nil {", "		if node.sub[i] != nil {")
+	mutant("huff-descent-nine-bits", "huffman-tree-build", "huffman.go", "	for length > 8 {\n		length -= 8", "	for length > 8 {\n		length -= 9")
+	mutant("huff-fill-start-unaligned", "huffman-tree-build", "huffman.go", "	start, end := int(uint8(code<<n)), 1<<n", "	start, end := int(uint8(code)), 1<<n")
+}
